@@ -92,3 +92,19 @@ def enum_members(relpath, clsname):
                 and not st.targets[0].id.startswith('_'):
             out.append(st.targets[0].id)
     return out
+
+
+def enum_int_values(relpath, clsname):
+    '''{member: int} when every member of the Enum class is assigned an integer literal, else None'''
+    try:
+        cls = find(relpath, clsname)
+    except Missing:
+        return None
+    out = {}
+    for st in cls.body:
+        if isinstance(st, ast.Assign) and len(st.targets) == 1 and isinstance(st.targets[0], ast.Name) and not st.targets[0].id.startswith('_'):
+            if isinstance(st.value, ast.Constant) and isinstance(st.value.value, int) and not isinstance(st.value.value, bool):
+                out[st.targets[0].id] = st.value.value
+            else:
+                return None
+    return out or None
